@@ -54,7 +54,7 @@ func genPowers(r *rand.Rand, n int) []int64 {
 
 func genAppMsg(r *rand.Rand, nv, nc int, chainInfoOnly bool) appMsg {
 	m := appMsg{Val: r.Intn(nv), Chain: r.Intn(nc)}
-	k := r.Intn(36)
+	k := r.Intn(39)
 	if chainInfoOnly {
 		k = 4 + r.Intn(6)
 	}
@@ -105,6 +105,12 @@ func genAppMsg(r *rand.Rand, nv, nc int, chainInfoOnly bool) appMsg {
 		m.Kind, m.Msg, m.Data, m.Gas = "pubdata", r.Intn(6), fmt.Sprintf("txhash%d", r.Intn(3)), uint64(r.Intn(3))
 	case k < 29:
 		m.Kind, m.Msg, m.Data = "errdata", r.Intn(6), "boom"
+	case k >= 37:
+		// one validator, two kinds of change on different chains (snapshot-worthiness finds one of them first)
+		m.Kind, m.Mixed, m.Data, m.Trait = "extinfo", true, []string{"b", "c"}[r.Intn(2)], [][]string{{"mev"}, {"x", "y"}}[r.Intn(2)]
+	case k >= 36:
+		// one tx with signatures for several queues, some refused
+		m.Kind, m.Level = "signmulti", int32(r.Intn(4))
 	case k >= 34:
 		// governance changes the list of gas exempt addresses (read by the ante chain)
 		m.Kind, m.Data = "gasexempt", []string{"", "0", "1,2", fmt.Sprint(r.Intn(nv)), "0,1,2,3"}[r.Intn(5)]
@@ -441,7 +447,25 @@ func corpusAppScripts() []*appScript {
 			{Height: 6, Time: 1_700_000_108, Restart: true, Txs: []appTx{st(0, "e")}},
 		},
 	}
-	return []*appScript{a, b, c, d, e, g, h}
+	// (9) seeded C08-K: one MsgAddMessagesSignatures for three queues — a good signature, a corrupted one, an unknown message id —
+	// from a sender that is not gas exempt: the error and the gas of the failed tx must be the same in every execution.
+	// (10) seeded C08-M: validator 1 rotates its key on chain 0 and only changes traits on chain 1; the valset end blocker at
+	// height 50 builds the next snapshot: whatever it reports about WHY the snapshot is new must be the same in every execution.
+	two := appGenesis{Powers: []int64{10, 10, 10, 10}, NChains: 2, Fees: [][]string{{"1.0", "1.0"}, {"2.0", "2.0"}, {"2.0", "2.0"}, {"2.0", "2.0"}},
+		Traits: [][]string{nil, nil, nil, nil}, Weights: [5]string{"1.0", "0", "0", "0", "0"}}
+	k := &appScript{Genesis: two, Blocks: []appBlock{
+		{Height: 2, Time: 1_700_000_100, Txs: []appTx{{Msgs: []appMsg{{Kind: "slc", Chain: 0, Data: "p"}}}, {Msgs: []appMsg{{Kind: "slc", Chain: 1, Data: "q"}}}}},
+		{Height: 3, Time: 1_700_000_102, Txs: []appTx{{Msgs: []appMsg{{Kind: "signmulti", Val: 1, Chain: 0, Level: 3}}}, {Msgs: []appMsg{{Kind: "signmulti", Val: 2, Chain: 1, Level: 3}}}}},
+		{Height: 4, Time: 1_700_000_104, Txs: []appTx{{Msgs: []appMsg{{Kind: "signmulti", Val: 3, Chain: 0, Level: 1}}}, {Msgs: []appMsg{{Kind: "signmulti", Val: 1, Chain: 1, Level: 2}}},
+			{Msgs: []appMsg{{Kind: "signmulti", Val: 2, Chain: 0, Level: 0}}}}},
+	}}
+	m := &appScript{Genesis: two, Blocks: []appBlock{
+		{Height: 2, Time: 1_700_000_100, Txs: []appTx{{Msgs: []appMsg{{Kind: "extinfo", Val: 1, Chain: 0, Mixed: true, Data: "b", Trait: []string{"mev"}}}}}},
+		{Height: 50, Time: 1_700_000_200, Txs: nil},
+		{Height: 51, Time: 1_700_000_202, Txs: []appTx{{Msgs: []appMsg{{Kind: "extinfo", Val: 2, Chain: 1, Mixed: true, Data: "c", Trait: []string{"x", "y"}}}}}},
+		{Height: 100, Time: 1_700_000_300, Restart: true, Txs: nil},
+	}}
+	return []*appScript{a, b, c, d, e, g, h, k, m}
 }
 
 // ---- parent side ----
